@@ -240,16 +240,34 @@ def leg_c(ctx, rng, n):
 
     for it in range(n):
         shp = gen.shape(rng, 0, 4, extents=[0, 1, 1, 2, 2, 2, 3, 3, 3, 4, 2, 3, 4, 1])
-        dt = rng.choice([np.int64, np.int8, np.uint16, np.float64, np.float32, np.bool_])
+        dt = rng.choice([np.int64, np.int8, np.uint16, np.float64, np.float32, np.bool_, np.uint8, np.int16, np.complex128])
         k = np.dtype(dt).kind
         fillraw = rng.choice([0, 0, 1, 2])
+        if k in "iu" and np.dtype(dt).itemsize <= 2 and rng.random() < 0.4:
+            # a fill value whose sum / product over the reduced extent leaves the operand's narrow dtype (NumPy accumulates
+            # sum and prod of narrow integers in the platform integer)
+            big = {"int8": [100, -100, 60, 7], "uint8": [200, 90, 9], "int16": [20000, -15000, 200], "uint16": [40000, 300]}[np.dtype(dt).name]
+            fillraw = big[int(rng.integers(len(big)))]
         d = gen.dense(rng, shp, int(fillraw), lo=0 if k in "ub" else -3, hi=3).astype(dt)
         fill = np.asarray(fillraw).astype(dt)[()]
         if k == "f" and rng.random() < 0.5:
             d = (d / dt(2)).astype(dt)  # exactly representable halves
+        if k == "c":
+            d = (d + 1j * gen.dense(rng, shp, 0, lo=-2, hi=2)).astype(dt)
+            d = np.where(np.real(d) == np.real(fill), fill, d).astype(dt)
         red = str(rng.choice(REDS))
+        if k in "iu" and red in ("prod", "nanprod", "ufunc.reduce") and abs(int(fill)) ** max(int(d.size), 1) >= 2 ** 62:
+            # a product that leaves the 64-bit accumulator wraps in NumPy (and nobody specifies how): keep products inside it
+            small = dt(7 if abs(int(fill)) > 7 else int(fill))
+            d = np.where(d == fill, small, d).astype(dt)
+            fill = small
+            if abs(int(fill)) ** max(int(d.size), 1) >= 2 ** 62:
+                d = np.where(d == fill, dt(2), d).astype(dt)
+                fill = dt(2)
+        if k == "c" and red in ("max", "min", "nanmax", "nanmin", "argmax", "argmin", "ufunc.reduce", "any", "all"):
+            red = str(rng.choice(["sum", "prod", "mean", "nansum", "nanmean", "nanprod"]))
         if red.startswith("nan"):
-            if k != "f":
+            if k not in "fc":
                 d = d.astype(np.float64); dt = np.float64; k = "f"
                 fill = np.float64(fill)
             d = np.where(rng.random(size=shp) < 0.15, np.nan, d).astype(dt)
